@@ -46,6 +46,9 @@ class Ctx:
         self.tier = tier
         self.seed = seed
         self.t0 = time.time()
+        # soft wall-clock budget of the cell rules: once it is used up the remaining cells are reported as not decided (never an alarm), so
+        # that a change the interpreter can only follow by path enumeration slows a check down by a bounded amount instead of stalling it
+        self.soft_budget_s = float(os.environ.get('VERIF_SOFT_BUDGET_S') or (900 if tier == 'quick' else 10800))
         self._progs = {}
         self._tmp = None
         self.findings = []
@@ -57,6 +60,9 @@ class Ctx:
         self.rules = []
         self.undecided = {}
         self.facts_dir = os.environ.get('VERIF_FACTS_DIR')
+
+    def over_budget(self):
+        return time.time() - self.t0 > self.soft_budget_s
 
     # ---------------------------------------------------------------- facts
     def prog(self, config='default'):
